@@ -69,7 +69,7 @@ def main():
         lvl, text, note = CHECKS[pid]
         text = text + ADD.get(pid, '') + COMMON
         if pid == 'C01':
-            note = "Trusted: pyvc's Python semantics, spec compiler, z3/cvc5. String / bit-lookup helper bodies are bounded-checked only.
+            note = "Trusted: pyvc's Python semantics, spec compiler, z3/cvc5. String / bit-lookup helper bodies are bounded-checked only."
         checks.append({"property_id": pid, "quick_cmd": f"./check {pid} --tier quick", "thorough_cmd": f"./check {pid} --tier thorough",
                        "evidence_file": f"evidence/{pid}.json", "replay_cmd_template": f"./check {pid} --replay {{path}}", "engine": "pyvc",
                        "level_claimed": {"category": lvl, "text": text, "design_ref": f"DESIGN.md section 6 {pid}"},
